@@ -81,6 +81,23 @@ CHECKS = {
          "the code matches). The gaussian lower bound is a KNOWN FINDING (snapshot-pinned).",
     technique="Lean 4 theorems (decision logic, bounds, interpolation lemmas) with a variant parameter for the known defect; differential correspondence",
     design="3/C04"),
+ "C03": dict(
+    text="Proof: folded draws land in the unit triangle; the sampled point is the convex combination (1-s-t, s, t) of the vertices of a "
+         "triangle of the triangulation (hence on the inner side of every supporting line, any orientation); the triangle index is always "
+         "in range; areas non-negative and orientation independent; point locations exact; degree<->metre conversions (generated from the "
+         "source) are mutual inverses away from the poles. Tie: bit-exact draw-replay correspondence given the triangulation returned by "
+         "the real code (validated exactly per case); exact rational point-in-polygon oracle; GeoJSON property join; offsets back in metres.",
+    technique="Lean 4 theorems (convexity, list lemmas on cumsum/searchsorted, field identities on generated conversions); differential correspondence",
+    design="3/C03",
+    note="That a valid triangulation covers exactly the polygon is classical geometry and not proved; the `triangle` library is external (validated per case)."),
+ "C17": dict(
+    text="Proof of the push-forward facts: triangle k is chosen exactly for u in (cum_{k-1}/A, cum_k/A] of length area_k/A; the fold is "
+         "2-to-1 with an involutive reflection; bary is affine with constant Jacobian = signed double area and injective on non-degenerate "
+         "triangles; areas are |cross|/2; ranges affine in the draw. Partial: the final measure-theoretic step is cited; uniformity is "
+         "tested on the implementation with exact binomial bounds (per-polygon shares, half-plane cuts, range bins; total alpha 1e-9).",
+    technique="Lean 4 theorems (interval preimages, constant Jacobian, involution) + statistical tests with exact binomial bounds; draw-replay correspondence",
+    design="3/C17",
+    note="'a.e.-bijection with constant Jacobian maps the uniform law to the uniform law' is cited, not formalised."),
 }
 
 def main():
